@@ -8,6 +8,7 @@ CONSTANTS
   PlusLocksKids = FALSE
   Scenario = "shrink"
   MaxTries = 4
+  LowestFree = FALSE
   OneOp = {1}
 INVARIANTS TypeOK Refines NoSelfWait NoDeadlock LocksReleased TakenReturned RetryBound
 CHECK_DEADLOCK TRUE
